@@ -64,7 +64,7 @@ def store(ex, target, val, node, in_place=True):
             seq = bv.arg(0)
         n = z3.Length(seq)
         i = get_i(idx)
-        j = z3.simplify(z3.If(i < 0, i + n, i))
+        j = vl.simp(z3.If(i < 0, i + n, i))
         ex.safe(z3.And(j >= 0, j < n), 'IndexError', 'item store in range', node)
         new = z3.Concat(z3.SubSeq(seq, 0, j), z3.Unit(as_val(val)), z3.SubSeq(seq, j + 1, n - j - 1))
         store(ex, target.value, V(VList(new) if kind == 'VList' else VTuple(new)), node)
@@ -146,7 +146,7 @@ def list_method(ex, recv_expr, v, name, e):
         ex.safe(is_int(idx), 'TypeError', 'insert index', e)
         i = get_i(idx)
         n = z3.Length(seq)
-        j = z3.simplify(z3.If(i < 0, z3.If(i + n < 0, 0, i + n), z3.If(i > n, n, i)))
+        j = vl.simp(z3.If(i < 0, z3.If(i + n < 0, 0, i + n), z3.If(i > n, n, i)))
         new = z3.Concat(z3.SubSeq(seq, 0, j), z3.Unit(as_val(args[1])), z3.SubSeq(seq, j, n - j))
         res = V(VNone)
     elif name == 'pop':
@@ -186,20 +186,18 @@ def set_method(ex, recv_expr, s, name, e):
     from .builtins import args_of, seq_term, set_of_seq_term
     args, kw = args_of(ex, e)
     if name == 'add':
-        new = SSet(z3.Store(s.arr, as_val(args[0]), True))
+        new = s.added(as_val(args[0]))
         poison_aliases(ex, recv_expr, e)
         store(ex, recv_expr, new, e)
         return V(VNone)
     if name == 'difference':
         o = args[0]
-        oarr = o.arr if isinstance(o, SSet) else (o.dom if isinstance(o, SDict) else set_of_seq_term(seq_term(ex, o, e)))
-        k = fresh('k', Val)
-        return SSet(z3.Lambda([k], z3.And(z3.Select(s.arr, k), z3.Not(z3.Select(oarr, k)))))
+        o = o if isinstance(o, SSet) else SSet(seq_term(ex, o, e))
+        return s.minus(o)
     if name == 'update':
         o = args[0]
-        oarr = o.arr if isinstance(o, SSet) else set_of_seq_term(seq_term(ex, o, e))
-        k = fresh('k', Val)
-        new = SSet(z3.Lambda([k], z3.Or(z3.Select(s.arr, k), z3.Select(oarr, k))))
+        o = o if isinstance(o, SSet) else SSet(seq_term(ex, o, e))
+        new = s.union(o)
         poison_aliases(ex, recv_expr, e)
         store(ex, recv_expr, new, e)
         return V(VNone)
@@ -215,8 +213,8 @@ def dict_method(ex, recv_expr, d, name, e):
         if d.vkind == 'set':
             if not isinstance(dv, SSet):
                 # q.get(cur, []) on a dict of sets: empty default
-                return SSet(z3.If(z3.Select(d.dom, k), z3.Select(d.val, k), vl.empty_set()))
-            return SSet(z3.If(z3.Select(d.dom, k), z3.Select(d.val, k), dv.arr))
+                return SSet(z3.If(z3.Select(d.dom, k), z3.Select(d.val, k), vl.empty_seq()))
+            return SSet(z3.If(z3.Select(d.dom, k), z3.Select(d.val, k), dv.plain()))
         return V(z3.If(z3.Select(d.dom, k), z3.Select(d.val, k), as_val(dv)))
     if name == 'pop':
         k = as_val(args[0])
